@@ -364,6 +364,15 @@ func marshalPaths(r *evid.Run) {
 			chk(b, err, want32, "Marshal(float32)")
 			b, err = jsonv2.Marshal(map[float32]int{f32: 1})
 			chk(b, err, `{"`+want32+`":1}`, "Marshal(map[float32]int)")
+			// the precision belongs to the type, whatever the formatting options
+			b, err = jsonv2.Marshal([]float32{f32, f32}, jsontext.SpaceAfterComma(true))
+			chk(b, err, "["+want32+", "+want32+"]", "Marshal([]float32, SpaceAfterComma)")
+			b, err = jsonv2.Marshal(struct{ F float32 }{f32}, jsontext.Multiline(true))
+			chk(b, err, "{\n\t\"F\": "+want32+"\n}", "Marshal(struct{F float32}, Multiline)")
+			b, err = jsonv2.Marshal(map[string]any{"k": f32}, jsontext.WithIndent(" "))
+			chk(b, err, "{\n \"k\": "+want32+"\n}", "Marshal(any(float32), WithIndent)")
+			b, err = jsonv2.Marshal([]float64{f, f}, jsontext.SpaceAfterComma(true), jsontext.SpaceAfterColon(true))
+			chk(b, err, "["+want+", "+want+"]", "Marshal([]float64, SpaceAfterComma)")
 			bb.Reset()
 			enc = jsontext.NewEncoder(&bb)
 			err = enc.WriteToken(jsontext.Float32(f32))
